@@ -515,7 +515,7 @@ impl Prop for P {
     fn rule() -> &'static str {
         "generated arenas of 3-40 tree nodes (leaves x, y, z, three free variables, constants k/4; neg, abs, square, add, sub, \
          mul, min, max; remap_xyz with arbitrary earlier entries as target and as axis expressions; remap_affine with scaled \
-         signed permutations (90-degree rotations, reflections, non-uniform scales), shears and translations k/4), operands \
+         signed permutations (90-degree rotations, reflections, non-uniform scales), shears and translations k/4; single-axis remaps; one entry placed twice along one axis through remap_xyz or remap_affine, so that two frames agree on two axes), operands \
          chosen by selectors so entries are shared under several frames and remaps nest in any order; built with the Tree \
          builder API, imported, and evaluated at points k/4. Oracle: an independent substitution semantics over the arena \
          (remap_xyz: evaluate the three axis expressions at the current point, then the target there; remap_affine: p -> M p; \
